@@ -31,6 +31,16 @@ chk("C16", "model_checking",
     "TLA+ spec (Rfc1982) model-checked by TLC + Apalache lemma; spec->impl replay of every state; impl->spec trace validation",
     "DESIGN.md §3 C16")
 
+chk("C03", "model_checking",
+    "TLC model-checks step-by-step transcriptions of chain.rs (from_iter incl. the unsorted path, contains_item, is_encompassed, trim, "
+    "difference, eq, verify_issued) against their set-theoretic meaning for every block sequence up to length 3/4 and every pair of sets "
+    "over 0..5/0..7, plus the range->prefix decomposition at widths 3-6; every case is replayed through AsBlocks/IpBlocks/ResourceSet/"
+    "RequestResourceLimit under 14 embeddings (both ends of each number space) incl. text, serde and DER forms; random full-width "
+    "scenarios are coordinate-compressed and validated step by step by Trace_ResChain.",
+    "Blocks handed to collectors are well-formed; embeddings/compression preserve order, adjacency and domain ends; TLC/SANY.",
+    "TLA+ transcription (ResChain/IntervalSet/IpCanon) model-checked by TLC; exhaustive spec->impl replay; impl->spec trace validation",
+    "DESIGN.md §3 C03")
+
 ALL = ["C%02d" % i for i in range(1, 18)]
 
 
